@@ -61,6 +61,22 @@ def run(ctx):
                 ctx.count("json_skipped(non-finite value: JSON does not preserve it)"); continue
             rq = dict(S.graphs.request(c), op="serde", sig=r["sig"], edge_data=s["req"]["edge_data"], points=pts, format=fmt, meta=True)
             reqs.append(rq); infos.append((s, fmt))
+            if fmt in ("cbor", "wire_seq") and r["L"] >= 1 and len(reqs) % 7 == 3:
+                # a ragged signature (later rows longer than the first): build_sampler accepts it and reads the first L columns only
+                rag = [list(row) + ([rng.choice([-1, 0, 1])] * (1 if i else 0)) for i, row in enumerate(r["sig"])]
+                reqs.append(dict(rq, sig=rag)); infos.append((s, fmt + "+ragged_signature"))
+    # 16 loops (a rose of 16 massive self-loops, D = 1): loop numbers that do not fit into four bits
+    rose = [(0, 0)] * 16
+    rb = run_harness([dict(op="graph", D=1, edges=[[0, 0, f2b(0.75), True] for _ in rose], ext=[])])[0]
+    if rb.get("status") == "ok":
+        c16 = dict(edges=rose, weights=[0.75] * 16, massive=[True] * 16, ext=[], D=1, name="rose16", dod=None, loops=16)
+        sig16 = [[1 if i == j else 0 for j in range(16)] for i in range(16)]
+        ed16 = [[f2b(1.0 + 0.125 * i), [f2b(0.0)]] for i in range(16)]
+        pts16 = [[f2b(x) for x in S.point(rng, rb["numVars"], "uniform")] for _ in range(3)]
+        s16 = dict(case=c16, routing=dict(sig=sig16, L=16), built=rb, table=rb["table"], req=dict(edge_data=ed16))
+        for fmt in ("cbor", "wire_seq"):
+            reqs.append(dict(op="serde", D=1, edges=[[0, 0, f2b(0.75), True] for _ in rose], ext=[], sig=sig16, edge_data=ed16, points=pts16,
+                             format=fmt, meta=True)); infos.append((s16, fmt))
     res = run_harness(reqs)
     exp = expected_keys(structs)
     for rq, a, (s, fmt) in zip(reqs, res, infos):
